@@ -94,6 +94,12 @@ func (o *OCIDir) BlobMount(ctx context.Context, refSrc ref.Ref, refTgt ref.Ref, 
 
 // BlobPut sends a blob to the repository, returns the digest and size when successful
 func (o *OCIDir) BlobPut(ctx context.Context, r ref.Ref, d descriptor.Descriptor, rdr io.Reader) (descriptor.Descriptor, error) {
+	// a digest that cannot be verified is an error, only the zero value means the digest is unknown
+	if d.Digest != "" {
+		if err := d.Digest.Validate(); err != nil {
+			return d, fmt.Errorf("failed to put blob, invalid digest %s, ref %s: %w", d.Digest.String(), r.CommonName(), err)
+		}
+	}
 	t := o.throttleGet(r, false)
 	done, err := t.Acquire(ctx, reqmeta.Data{Kind: reqmeta.Blob, Size: d.Size})
 	if err != nil {
